@@ -48,7 +48,13 @@ let parse_acct () : n * account =
       a_created = created; a_lastacc = lastacc; a_parent = parent; a_storage = stor; a_lookups = looks;
       a_preimages = pre }
   in
-  (id, { a0 with a_items = items_of a0; a_octets = octets_of a0 })
+  if !pos < Array.length !toks && !toks.(!pos) = "RC" then begin
+    incr pos;
+    let i = nn () in
+    let o = nn () in
+    (id, { a0 with a_items = i; a_octets = o })
+  end
+  else (id, { a0 with a_items = items_of a0; a_octets = octets_of a0 })
 
 let parse_op () : op =
   match next () with
